@@ -1,8 +1,11 @@
 // Native replay for the bitmap geometry checks (C08/C11) on the REAL classes
 #include "Bitmap/BitmapFile.h"
 #include "Bitmap/ImageHeader.h"
+#include "Sprite/TilesetLoader.h"
+#include "Stream/MemoryReader.h"
 #include "replay_util.h"
 #include <climits>
+#include <cstring>
 using namespace OP2Utility;
 typedef unsigned __int128 U128;
 
@@ -19,9 +22,29 @@ static void probe(uint16_t bpp, int32_t w, int32_t h, size_t n)
 	printf("VerifyPixelSize(bpp=%u, w=%d, h=%d, size=%zu): threw=%d spec-accepts=%d\n", bpp, w, h, n, threw, ok);
 	if (threw == ok) confirmed("pixel container of %zu bytes %s for width %d, height %d, %u bpp", n, threw ? "refused" : "accepted", w, h, bpp);
 }
+// CreateIndexed(bitCount, width, height) and the custom tileset loader that hands it a height taken from the file.
+// UBSan (-fno-sanitize-recover) aborts the process on undefined arithmetic: that abort is the confirmation.
+static void createIndexedCase(const Args& a)
+{
+	uint16_t bpp = (uint16_t)a.u64("a_bitCount", 8); uint32_t w = (uint32_t)a.u64("a_width", 0); int32_t h = (int32_t)a.i64("a_height", INT32_MIN);
+	// 1. through the loader: a PBMP tileset whose header announces the pixel height 0x80000000 (a multiple of 32), i.e. -height == INT32_MIN
+	if (h == INT32_MIN) {
+		std::string f; auto u32 = [&](uint32_t v) { f.append(reinterpret_cast<char*>(&v), 4); };
+		f += "PBMP"; u32(1068); f += "head"; u32(0x14); u32(2); u32(32); u32(0x80000000u); u32(8); u32(8);
+		f += "PPAL"; u32(1048); f += "head"; u32(4); u32(1); f += "data"; u32(1024); f.append(1024, '\0'); f += "data"; u32(0);
+		printf("ReadTileset on a %zu-byte PBMP file with pixelHeight 0x80000000\n", f.size()); fflush(stdout);
+		try { Stream::MemoryReader r(f.data(), f.size()); auto t = Tileset::ReadTileset(r); printf("  loaded, height %d\n", t.imageHeader.height); }
+		catch (const std::exception& e) { printf("  refused: %s\n", e.what()); }
+	}
+	// 2. directly
+	printf("CreateIndexed(%u, %u, %d)\n", bpp, w, h); fflush(stdout);
+	try { auto b = BitmapFile::CreateIndexed(bpp, w, h); printf("  created, %zu pixel bytes\n", b.pixels.size()); }
+	catch (const std::exception& e) { printf("  refused: %s\n", e.what()); }
+}
 int main(int argc, char** argv)
 {
 	Args a(argc, argv);
+	if (a.has("a_height") && !a.has("a_pixelsWithPitchSize") && a.find("a_bitCount") && !a.has("pixelsWithPitchSize")) { createIndexedCase(a); return finish(); }
 	if (a.has("a_width")) probe((uint16_t)a.u64("a_bitCount", 8), (int32_t)a.i64("a_width", 0), (int32_t)a.i64("a_height", 0), (size_t)a.u64("a_pixelsWithPitchSize", 0));
 	probe(8, -5, 0, 0);              // a negative width with no rows
 	probe(8, 0, INT32_MIN, 0);       // |INT32_MIN| is not representable (UBSan reports the negation)
